@@ -554,29 +554,49 @@ def _fixed_zone_histories(depth):
     can_reset = reset()
     if not can_reset:
         acc.degrade("fixed-zone table not resettable: histories run on the already built table")
+    def doc_id(sec):
+        # documented id of a fixed zone: "UTC", else "UTC" + sign + hh[:mm[:ss]] (independent of any culture)
+        if sec == 0:
+            return "UTC"
+        a = abs(sec)
+        h, m, s_ = a // 3600, a // 60 % 60, a % 60
+        return "UTC" + ("+" if sec > 0 else "-") + "%02d" % h + (":%02d" % m if (m or s_) else "") + (":%02d" % s_ if s_ else "")
+    from pyoda_time._compatibility._culture_info import CultureInfo
+    saved_culture = CultureInfo.current_culture
     n = 0
-    for d in range(1, depth + 1):
-        for hist in itertools.product(secs, repeat=d):
-            if can_reset:
-                reset()
-            n += 1
-            acc.count(evaluations=1)
-            for i, sec in enumerate(hist):
-                acc.count(transitions=1)
-                try:
-                    off = Offset.from_seconds(sec)
-                    z = DateTimeZone.for_offset(off)
-                    got = (z.get_utc_offset(probe).seconds, z.id, z.min_offset.seconds, z.max_offset.seconds, z == DateTimeZone.for_offset(off),
-                           (z == DateTimeZone.utc) == (sec == 0))
-                    exp_id = "UTC" if sec == 0 else "UTC" + str(off)
-                    exp = (sec, exp_id, sec, sec, True, True)
-                    if got != exp:
-                        acc.violation("C13/fixed-zones/history-dependent", "after for_offset requests %r, for_offset(%d s) gives %r, expected %r" % (hist[:i], sec, got, exp),
-                                      {"kind": "fixed-zones", "history": list(hist[:i + 1])})
-                        break
-                except Exception as e:  # noqa: BLE001
-                    acc.lib_exception("C13/fixed-zones", e, {"history": list(hist[:i + 1])})
-                    break
+    # ambient answer: the process's current culture (invariant by default; fi-FI and da-DK write times with '.', ar-SA has its own signs)
+    for cname in ("", "fi-FI", "da-DK", "ar-SA"):
+        try:
+            CultureInfo.current_culture = CultureInfo(cname) if cname else CultureInfo.invariant_culture
+        except Exception:  # noqa: BLE001
+            continue
+        try:
+            for d in range(1, (depth if not cname else min(depth, 2)) + 1):
+                for hist in itertools.product(secs, repeat=d):
+                    if can_reset:
+                        reset()
+                    n += 1
+                    acc.count(evaluations=1)
+                    for i, sec in enumerate(hist):
+                        acc.count(transitions=1)
+                        try:
+                            off = Offset.from_seconds(sec)
+                            z = DateTimeZone.for_offset(off)
+                            back = DateTimeZoneProviders.tzdb.get_zone_or_none(z.id)
+                            got = (z.get_utc_offset(probe).seconds, z.id, z.min_offset.seconds, z.max_offset.seconds, z == DateTimeZone.for_offset(off),
+                                   (z == DateTimeZone.utc) == (sec == 0), back is not None and back == z)
+                            exp = (sec, doc_id(sec), sec, sec, True, True, True)
+                            if got != exp:
+                                acc.violation("C13/fixed-zones/history-dependent%s" % ("/culture=" + cname if cname else ""),
+                                              "%safter for_offset requests %r, for_offset(%d s) gives %r, expected %r (last field: the provider resolves the zone's own id back to it)" % (
+                                                  ("[current culture %s] " % cname) if cname else "", hist[:i], sec, got, exp),
+                                              {"kind": "fixed-zones", "history": list(hist[:i + 1]), "culture": cname})
+                                break
+                        except Exception as e:  # noqa: BLE001
+                            acc.lib_exception("C13/fixed-zones", e, {"history": list(hist[:i + 1]), "culture": cname})
+                            break
+        finally:
+            CultureInfo.current_culture = saved_culture
     acc.count(states=n, nontrivial=n)
     acc.outcome("fixed-zones")
     acc.sample({"for_offset_seconds_alphabet": secs, "depth": depth})
